@@ -169,11 +169,7 @@ type build struct {
 }
 
 func shipLogDir() string {
-	out, err := run(verifDir, goEnv(), goBin, "list", "-m", "-f", "{{.Dir}}", "github.com/enbility/ship-go")
-	if err != nil {
-		fatal2("go list ship-go: %v\n%s", err, out)
-	}
-	return filepath.Join(strings.TrimSpace(out), "logging")
+	return filepath.Join(verifDir, "third_party", "ship-go", "logging")
 }
 
 func doBuild(scratch string, race bool, stmt []string) build {
